@@ -157,7 +157,7 @@ def _has_local_caller(F, key):
     return key in c
 
 
-def rule_init(ctx, rep, only=None):
+def rule_init(ctx, rep, only=None, scope=None):
     """R-INIT: between the allocation and the first owning handle every payload field that is not MaybeUninit is written,
     by ptr::write / copy (never by a dropping assignment), and the writes dominate the handle's construction."""
     for tag, F, E in ctx.each():
@@ -166,6 +166,8 @@ def rule_init(ctx, rep, only=None):
             if b0["kind"] not in ("Fn", "AssocFn"):
                 continue
             if only and b0.get("name") not in only:
+                continue
+            if scope is not None and b0["key"] not in scope(F):
                 continue
             # private helpers are judged inside their callers (virtually inlined): `Allocation::new(len)`, `write_header(..)`, `finish()`
             if not balance.is_api(F, b0) and _has_local_caller(F, b0["key"]):
@@ -263,7 +265,7 @@ def rule_init(ctx, rep, only=None):
                         rep.ok("R-INIT", ik, cfg=tag)
                     else:
                         rep.bad("R-INIT", ik, why, F.loc(b), tag)
-    if not only:
+    if not only and scope is None:
         rep.floor("R-INIT", 8, "payload fields of the six allocation-to-handle regions")
 
 
